@@ -107,6 +107,18 @@ def fold_programs(rng, n):
             else:
                 src = f"main:\n li t0, {x}\n li t1, {y}\n {m} t2, t0, t1\n mv a0, t2\n li a7, 93\n ecall\n"
             out.append((m, op, x, y, src))
+    # the zero register as source operand takes its own path through the analyzer (x0 is never in
+    # the value map): every operator with x0 on either side / on both sides
+    for m, op in list(R_OPS.items()) + list(I_OPS.items()):
+        for _ in range(max(2, n // 2)):
+            y = rng.choice([v for v in vals if v != 0] or [5])
+            if m in I_OPS:
+                yi = rng.choice([1, 5, 10, -1, 0x7ff, -2048, 31, 12])
+                out.append((m, op, 0, yi, f"main:\n {m} t2, zero, {yi}\n mv a0, t2\n li a7, 93\n ecall\n"))
+            else:
+                out.append((m, op, 0, y, f"main:\n li t1, {y}\n {m} t2, x0, t1\n mv a0, t2\n li a7, 93\n ecall\n"))
+                out.append((m, op, y, 0, f"main:\n li t0, {y}\n {m} t2, t0, zero\n mv a0, t2\n li a7, 93\n ecall\n"))
+                out.append((m, op, 0, 0, f"main:\n {m} t2, zero, x0\n mv a0, t2\n li a7, 93\n ecall\n"))
     return out
 
 
@@ -281,9 +293,12 @@ def run(res, tier, seed):
         if m_ in I_OPS:
             want = py_rv32(op, x, y)
         # the mv node (index 3 or 4) has t2's value in its reg-in map
-        claims = [l for l in blk if l.startswith("FACT") and " ri={" in l and "7=c:" in l.split(" ro=")[0]]
+        claims = [l for l in blk if l.startswith("FACT") and re.search(r"[{,]7=c:", l.split(" ro=")[0])]
+        zero_src = " zero" in src or " x0" in src
         if not claims:
-            if extra_first is None:
+            # with x0 as an operand the analysis may stay silent (no claim is sound); a claim it does
+            # make is checked below
+            if extra_first is None and not zero_src:
                 extra_first = {"statement": src, "what": f"{m_} {x},{y} not folded to a constant", "impl": blk[:8]}
             continue
         got = int(re.search(r"[{,]7=c:(-?\d+)", claims[0].split(" ro=")[0]).group(1))
